@@ -1,9 +1,11 @@
 // R-C12-3 fixture: an output name that can coincide with an input image
 #include <fstream>
 #include <string>
+namespace DFS { struct CatalogEntry { std::string name() const; char directory() const; }; }
 bool is_image(const std::string& ext) { return ext == "ssd" || ext == "gz"; }   // (named img_load in the repo)
-bool write_body(const std::string& dest_dir, const std::string& safe_name)
+bool write_body(const std::string& dest_dir, const DFS::CatalogEntry& e)
 {
+  const std::string safe_name = e.name();
   const std::string body = dest_dir + safe_name;	// may be <dest>/X.ssd
   std::ofstream out(body, std::ofstream::out);
   out << "x";
